@@ -157,7 +157,7 @@ pub fn run(ctx: &Ctx) -> (Spec, Report) {
     // the full {absent, present} x {absent, present} matrix per dual option and language
     let mut cells: Vec<Cell> = vec![];
     let mut rng = Rng::derive(seed, "C20-cells", 0);
-    let reps = ctx.tier.pick(2, 24);
+    let reps = ctx.tier.pick(6, 40);
     for lang in ALL_LANGS {
         let nbits = match lang {
             LangId::Kotlin => 64,
@@ -279,7 +279,7 @@ pub fn run(ctx: &Ctx) -> (Spec, Report) {
     });
 
     // ---- -g / --generate-config ---------------------------------------------------------------------------
-    let n_g = ctx.tier.pick(24, 300);
+    let n_g = ctx.tier.pick(60, 400);
     let r2 = par_shards(ctx.threads, n_g, |i| {
         let mut rep = Report::new();
         let mut rng = Rng::derive(seed, "C20-g", i as u64);
